@@ -58,7 +58,7 @@ fn one_hash(idx: usize, seed: u64, local_pk: secp256k1::PublicKey, cfg: &SimCfg,
     let need = (amount as u128 + fee_of(cfg, amount)) as u64;
     let mut htlcs = vec![];
     for k in 0..shape.n_htlcs {
-        let am = if shape.kind == 1 {
+        let am = if shape.kind == 1 || shape.kind == 5 {
             need / 3
         } else if shape.n_htlcs == 1 {
             need
@@ -67,7 +67,7 @@ fn one_hash(idx: usize, seed: u64, local_pk: secp256k1::PublicKey, cfg: &SimCfg,
         } else {
             need - need / 2
         };
-        let rel = if shape.kind == 2 && k == shape.n_htlcs - 1 { cfg.policy_delta as u32 - 1 } else { cfg.policy_delta as u32 + 50 + k as u32 };
+        let rel = if (shape.kind == 2 && k == shape.n_htlcs - 1) || shape.kind == 5 { cfg.policy_delta as u32 - 1 } else { cfg.policy_delta as u32 + 50 + k as u32 };
         let expiry = cfg.start_height + rel;
         let amt = if shape.amountless { AmtField::Bytes(tu64(amount)) } else { AmtField::Absent };
         let metadata = Metadata::Tramp { invoice: inv.clone(), amt, extra_before: vec![], extra_after: vec![] };
@@ -182,7 +182,10 @@ fn b_trace(r: &RunResult, b_hex: &str) -> (Vec<String>, Vec<(String, u64)>) {
     (calls, answers)
 }
 
-pub const FREEZE_POINTS: [(&str, u64, u8); 9] = [
+pub const FREEZE_POINTS: [(&str, u64, u8); 11] = [
+    // A consists of two parts that both fail the expiry test while its lifecycle is stuck
+    ("listdatastore", 0, 4),
+    ("timer", 0, 4),
     ("listdatastore", 0, 0),
     ("datastore", 0, 0),
     ("datastore", 1, 0),
@@ -264,7 +267,11 @@ pub fn b_scripts() -> Vec<(BShape, Script)> {
 pub fn run_pair(st: &mut C14Stats, shape: &BShape, script: &Script, fp: (&'static str, u64, u8), seed: u64) {
     let seed_a = mix(seed, 1);
     let seed_b = mix(seed, 2);
-    let a_shape = BShape { n_htlcs: 1, kind: if fp.2 == 3 { 1 } else { 0 }, amountless: false };
+    let a_shape = match fp.2 {
+        3 => BShape { n_htlcs: 1, kind: 1, amountless: false },
+        4 => BShape { n_htlcs: 2, kind: 5, amountless: false },
+        _ => BShape { n_htlcs: 1, kind: 0, amountless: false },
+    };
     let (own_outcome, own_before) = match fp.2 {
         1 => (PayOutcome::Pending, true),
         2 => (PayOutcome::Failed, false),
